@@ -7,22 +7,22 @@ SPEC = {'level': 'exploration',
                  'transaction sizes are >= 1; fees may be zero or negative; an input linearization declared topological is topological',
                  'optimality is checked against all topological orders for n <= 7 and against 11 sampled orders for larger clusters',
                  'tree-shaped clusters: PostLinearize result optimal (guarantee documented in cluster_linearize.h, beyond the property statement; own oracle id)'],
- 'stages': [gen('vh_c24', 'c24_linearize', 120000, 2000000, min_cases_quick=40000,
+ 'stages': [gen('vh_c24', 'c24_linearize', 12000, 200000, min_cases_quick=5000,
                 floors={'>=2-components': 0.15, 'equal-feerate-tie': 0.3, 'optimal-reported': 0.3, 'not-optimal': 0.05, 'improvement-checked': 0.4, 'strictly-improved': 0.1,
                         'n:33-64': 0.03, 'input:random-permutation(non-topological-claimed)': 0.08},
                 rule='clusters <= 64 txs x input linearization x budget; non-trivial = n>=4 and (>=2 components or tie)'),
-            gen('vh_c24', 'c24_postlinearize', 150000, 2500000, min_cases_quick=50000,
+            gen('vh_c24', 'c24_postlinearize', 24000, 400000, min_cases_quick=10000,
                 floors={'>=2-components': 0.15, 'equal-feerate-tie': 0.3, 'strictly-improved': 0.1, 'order-changed': 0.2},
                 rule='clusters <= 64 txs x topological order; PostLinearize twice'),
-            gen('vh_c24', 'c24_bruteforce', 40000, 600000, min_cases_quick=12000,
+            gen('vh_c24', 'c24_bruteforce', 16000, 300000, min_cases_quick=6000,
                 floors={'optimal-reported': 0.9, 'orders:25-720': 0.1, 'tree-optimality-checked': 0.1},
                 rule='clusters <= 7 txs, all topological orders enumerated'),
             enum('vh_c24', 'c24_small_exhaustive', tiers=('thorough',), rule='exhaustive: all 262144 four-transaction clusters over {edges} x fees {0,1,2,5} x sizes {1,3}'),
-            gen('vh_c24', 'up_clusterlin_linearize', 30000, 500000, rule='upstream fuzz target, supplementary'),
-            gen('vh_c24', 'up_clusterlin_postlinearize', 30000, 500000, rule='upstream fuzz target, supplementary'),
-            gen('vh_c24', 'up_clusterlin_postlinearize_tree', 30000, 500000, rule='upstream fuzz target, supplementary'),
-            gen('vh_c24', 'up_clusterlin_sfl', 20000, 300000, rule='upstream fuzz target, supplementary'),
-            gen('vh_c24', 'up_clusterlin_chunking', 30000, 500000, rule='upstream fuzz target, supplementary')]}
+            gen('vh_c24', 'up_clusterlin_linearize', 3000, 60000, rule='upstream fuzz target, supplementary'),
+            gen('vh_c24', 'up_clusterlin_postlinearize', 4000, 80000, rule='upstream fuzz target, supplementary'),
+            gen('vh_c24', 'up_clusterlin_postlinearize_tree', 3000, 60000, rule='upstream fuzz target, supplementary'),
+            gen('vh_c24', 'up_clusterlin_sfl', 3000, 60000, rule='upstream fuzz target, supplementary'),
+            gen('vh_c24', 'up_clusterlin_chunking', 4000, 80000, rule='upstream fuzz target, supplementary')]}
 
 META = {'level_text': 'Generated clusters (all structural shapes, 1..64 transactions, fee/size families with ties, zeros, negatives and extremes) with generated input '
                'linearizations and cost budgets; every output of Linearize / PostLinearize is checked with independent code: permutation, topological on the '
